@@ -66,17 +66,17 @@ structure Exch (m m' : Mgr) (i : Nat) : Prop where
   roots : m'.roots = m.roots
 
 /-- what the drivers need to know about a swap of adjacent levels -/
-structure SwapOK (P : Mgr → Prop) (R : Mgr → Mgr → Prop) : Prop where
+structure SwapOK (E : Err → Prop) (P : Mgr → Prop) (R : Mgr → Mgr → Prop) : Prop where
   refl : ∀ m, R m m
   trans : ∀ a b c, R a b → R b c → R a c
   vars : ∀ m, P m → OrderOK m.tbl
   /-- every element of `bdd.roots` is a node (they are held) -/
   roots : ∀ m, P m → ∀ r ∈ m.roots, m.mem r = true
   step : ∀ m i, P m → i + 1 < m.nvars →
-    OkOrSched (fun r m' => P m' ∧ R m m' ∧ Exch m m' i ∧ r = (m.len, m'.len)) (swapBody i (i + 1) m)
+    OkOr E (fun r m' => P m' ∧ R m m' ∧ Exch m m' i ∧ r = (m.len, m'.len)) (swapBody i (i + 1) m)
 
 section Abs
-variable {P : Mgr → Prop} {R : Mgr → Mgr → Prop}
+variable {E : Err → Prop} {P : Mgr → Prop} {R : Mgr → Mgr → Prop}
 
 /-! ### small steps -/
 
@@ -283,9 +283,9 @@ theorem keyAt_exch {order : List (String × Int)} {m m' : Mgr} {i : Nat} (he : E
   unfold keyAt; rw [he.l2v j]
 
 /-- one comparison of the bubble sort -/
-theorem sortStep_spec (S : SwapOK P R) (order : List (String × Int)) (m : Mgr) (i : Nat)
+theorem sortStep_spec (S : SwapOK E P R) (order : List (String × Int)) (m : Mgr) (i : Nat)
     (hP : P m) (hi : i + 1 < m.nvars) (hc : Covered order m.nvars m) :
-    OkOrSched (fun _ m' => P m' ∧ R m m' ∧ m'.nvars = m.nvars ∧ m'.roots = m.roots ∧
+    OkOr E (fun _ m' => P m' ∧ R m m' ∧ m'.nvars = m.nvars ∧ m'.roots = m.roots ∧
         Covered order m.nvars m' ∧ (∀ j, keyAt order m' j = stepKeys (keyAt order m) i j) ∧
         (∃ f : Nat → Nat, (∀ a, f (f a) = a) ∧ (∀ a, f a < m.nvars ↔ a < m.nvars) ∧
           ∀ j, m'.tbl.l2v[j]? = m.tbl.l2v[f j]?))
@@ -342,9 +342,9 @@ theorem PermOf.trans {a b c : Mgr} (h1 : PermOf a b) (h2 : PermOf b c) (hn : b.n
   · intro j; rw [d2, d1]; rfl
 
 /-- a pass over the levels `l` -/
-theorem sortInner_spec (S : SwapOK P R) (order : List (String × Int)) (n : Nat) :
+theorem sortInner_spec (S : SwapOK E P R) (order : List (String × Int)) (n : Nat) :
     ∀ (l : List Nat) (m : Mgr), P m → m.nvars = n → (∀ i ∈ l, i + 1 < n) → Covered order n m →
-    OkOrSched (fun _ m' => P m' ∧ R m m' ∧ m'.nvars = n ∧ m'.roots = m.roots ∧ Covered order n m' ∧
+    OkOr E (fun _ m' => P m' ∧ R m m' ∧ m'.nvars = n ∧ m'.roots = m.roots ∧ Covered order n m' ∧
         (∀ j, keyAt order m' j = l.foldl stepKeys (keyAt order m) j) ∧ PermOf m m')
       (sortInner order l m) := by
   intro l
@@ -356,10 +356,10 @@ theorem sortInner_spec (S : SwapOK P R) (order : List (String × Int)) (n : Nat)
     intro m hP hn hl hc
     unfold sortInner
     have h1 := sortStep_spec S order m i hP (by rw [hn]; exact hl i List.mem_cons_self) (hn ▸ hc)
-    refine OkOrSched.bind h1 ?_
+    refine OkOr.bind h1 ?_
     intro _ m1 ⟨hP1, hR1, hn1, hr1, hc1, hk1, f, hf1, hf2, hf3⟩
     have h2 := ih m1 hP1 (hn1.trans hn) (fun j hj => hl j (List.mem_cons_of_mem _ hj)) (hn ▸ hc1)
-    refine OkOrSched.mono ?_ h2
+    refine OkOr.mono ?_ h2
     intro _ m2 ⟨hP2, hR2, hn2, hr2, hc2, hk2, hp2⟩
     refine ⟨hP2, S.trans _ _ _ hR1 hR2, hn2, hr2.trans hr1, hc2, ?_, ?_⟩
     · intro j
@@ -368,9 +368,9 @@ theorem sortInner_spec (S : SwapOK P R) (order : List (String × Int)) (n : Nat)
       rw [this]
     · exact PermOf.trans ⟨f, f, hf1, hf1, hf2, hf3⟩ hp2 hn1
 
-theorem sortOuter_spec (S : SwapOK P R) (order : List (String × Int)) (n : Nat) :
+theorem sortOuter_spec (S : SwapOK E P R) (order : List (String × Int)) (n : Nat) :
     ∀ (k : Nat) (m : Mgr), P m → m.nvars = n → Covered order n m →
-    OkOrSched (fun _ m' => P m' ∧ R m m' ∧ m'.nvars = n ∧ m'.roots = m.roots ∧ Covered order n m' ∧
+    OkOr E (fun _ m' => P m' ∧ R m m' ∧ m'.nvars = n ∧ m'.roots = m.roots ∧ Covered order n m' ∧
         (∀ j, keyAt order m' j =
           Nat.rec (motive := fun _ => Nat → Int) (keyAt order m)
             (fun _ r => (List.range (n - 1)).foldl stepKeys r) k j) ∧
@@ -388,9 +388,9 @@ theorem sortOuter_spec (S : SwapOK P R) (order : List (String × Int)) (n : Nat)
     unfold sortOuter
     have h1 := sortInner_spec S order n (List.range (n - 1)) m hP hn
       (fun i hi => by have := List.mem_range.mp hi; omega) hc
-    refine OkOrSched.bind h1 ?_
+    refine OkOr.bind h1 ?_
     intro _ m1 ⟨hP1, hR1, hn1, hr1, hc1, hk1, hp1⟩
-    refine OkOrSched.mono ?_ (ih m1 hP1 hn1 hc1)
+    refine OkOr.mono ?_ (ih m1 hP1 hn1 hc1)
     intro _ m2 ⟨hP2, hR2, hn2, hr2, hc2, hk2, hp2⟩
     refine ⟨hP2, S.trans _ _ _ hR1 hR2, hn2, hr2.trans hr1, hc2, ?_, PermOf.trans hp1 hp2 (hn1.trans hn.symm)⟩
     intro j
@@ -417,16 +417,16 @@ def SortedBy (order : List (String × Int)) (m : Mgr) : Prop :=
 variables, the bubble sort over adjacent swaps succeeds (for every schedule: or reports a
 schedule mismatch), keeps `P`, relates the final state to the initial one by `R`, permutes the
 names, and the requested ranks along the levels are sorted afterwards. -/
-theorem sortToOrder_sorted (S : SwapOK P R) (order : List (String × Int)) (m : Mgr) (hP : P m)
+theorem sortToOrder_sorted (S : SwapOK E P R) (order : List (String × Int)) (m : Mgr) (hP : P m)
     (hlen : order.length = m.nvars) (hc : Covered order m.nvars m) :
-    OkOrSched (fun _ m' => P m' ∧ R m m' ∧ m'.nvars = m.nvars ∧ Covered order m.nvars m' ∧
+    OkOr E (fun _ m' => P m' ∧ R m m' ∧ m'.nvars = m.nvars ∧ Covered order m.nvars m' ∧
         SortedBy order m' ∧ PermOf m m')
       (sortToOrder order m) := by
   unfold sortToOrder
   have hne : ¬ (m.nvars ≠ order.length) := by omega
   simp only [M.bind_eq, M.get_eq, hne, if_false]
   rw [hlen]
-  refine OkOrSched.mono ?_ (sortOuter_spec S order m.nvars m.nvars m hP rfl hc)
+  refine OkOr.mono ?_ (sortOuter_spec S order m.nvars m.nvars m hP rfl hc)
   intro _ m' ⟨hP', hR', hn', _, hc', hk', hp'⟩
   refine ⟨hP', hR', hn', hc', ?_, hp'⟩
   intro a b hab hb
@@ -448,13 +448,13 @@ structure ReqOrder (order : List (String × Int)) (m : Mgr) : Prop where
 
 /-- **`_sort_to_order` reaches exactly the requested order**: afterwards
 `level_of_var(v) = order[v]` for every variable and `var_at_level(order[v]) = v`. -/
-theorem sortToOrder_exact (S : SwapOK P R) (order : List (String × Int)) (m : Mgr) (hP : P m)
+theorem sortToOrder_exact (S : SwapOK E P R) (order : List (String × Int)) (m : Mgr) (hP : P m)
     (ho : ReqOrder order m) :
-    OkOrSched (fun _ m' => P m' ∧ R m m' ∧ m'.nvars = m.nvars ∧
+    OkOr E (fun _ m' => P m' ∧ R m m' ∧ m'.nvars = m.nvars ∧
         ∀ v p, order.lookup v = some p → m.tbl.vars.contains v = true →
           m'.tbl.vars[v]? = some p.toNat ∧ m'.tbl.l2v[p.toNat]? = some v)
       (sortToOrder order m) := by
-  refine OkOrSched.mono ?_ (sortToOrder_sorted S order m hP ho.len ho.cover)
+  refine OkOr.mono ?_ (sortToOrder_sorted S order m hP ho.len ho.cover)
   intro _ m' ⟨hP', hR', hn', hc', hs', f, g, hfg, hgf, hflt, hf⟩
   refine ⟨hP', hR', hn', ?_⟩
   have hV := S.vars m hP
